@@ -65,7 +65,8 @@ def diff(m, i, fields=FIELDS):
         # handleNode builds the error with fmt.Errorf(<lexer message>): a '%' in the message is then
         # treated as a verb ("%!x(MISSING)").  The model keeps the plain message; positions must agree.
         pi, pm = perr_pos(i.perr), perr_pos(m.perr)
-        if pi and pm and pi[:3] == pm[:3] and b"%!" in pi[3]:
+        if pi and pm and pi[:3] == pm[:3] and (b"%!" in pi[3] or (b"%%" in pm[3] and pi[3].replace(b"%%", b"%") == pm[3].replace(b"%%", b"%"))):
+            # ... or as an escaped percent sign ("%%" comes out as "%")
             out.remove("perr")
     return out
 
